@@ -346,3 +346,65 @@ func TestC06Kick(t *testing.T) {
 		}
 	})
 }
+
+// TestC06LoginWindow: a disconnect request that is handled while the protected user's login is
+// still in progress - at the instant its connection enters the registry (harness-owned schedule
+// point) - must not drop or ban it either.
+func TestC06LoginWindow(t *testing.T) {
+	ev := evid.New("C06", "TestC06LoginWindow")
+	defer ev.Flush()
+	rapid.Check(t, func(rt *rapid.T) {
+		option := rapid.IntRange(0, 2).Draw(rt, "option")
+		when := rapid.SampledFrom([]string{"before-add", "after-add"}).Draw(rt, "when")
+		flow := rapid.SampledFrom([]string{"123", "15"}).Draw(rt, "flow")
+		prot := hlref.AccessOf(hlref.PrivCannotBeDiscon, hlref.PrivReadChat)
+		inWorld(rt, hlsim.Options{Agreement: "a", Accounts: []hlsim.AccountSpec{acct("admin", "Admin", "adminpw", hlref.AccessOf(hlref.PrivDisconUser)), {Login: "vip", Name: "Vip", Password: "vpw", Access: prot}}}, func(rt *rapid.T, w *hlsim.World) {
+			pm := &pointMgr{ClientManager: w.Srv.ClientMgr}
+			w.Srv.ClientMgr = pm
+			admin := loginAs(rt, w, "10.6.9.1:1", "admin", "adminpw", "admin")
+			done := make(chan struct{})
+			realQuiesce := hlsim.Quiesce
+			defer func() { hlsim.Quiesce = realQuiesce }()
+			pm.arm(when, func() {
+				hlsim.Quiesce = func() { time.Sleep(time.Millisecond) }
+				fs := []hlref.Field{fld(hlref.FUserID, hlref.BE16(2))} // the id the new connection gets
+				if option != 0 {
+					fs = append(fs, fld(hlref.FOptions, hlref.BE16(option)))
+				}
+				admin.Request(hlref.TranDisconnectUser, fs...)
+				close(done)
+			})
+			v := w.Connect("10.6.9.2:1")
+			if !v.Handshake() {
+				rt.Fatalf("harness: handshake")
+			}
+			lo := hlsim.LoginOpts{Login: "vip", Password: "vpw"}
+			if flow == "123" {
+				lo.Name, lo.Icon = []byte("vip"), 1
+			} else {
+				lo.Version = hlref.BE16(190)
+			}
+			v.SendAsync(hlref.Tran{Type: hlref.TranLogin, ID: v.NewID(), Fields: lo.Fields()}.Encode())
+			select {
+			case <-done:
+			case <-time.After(time.Minute):
+				rt.Fatalf("harness: the login never reached the registry")
+			}
+			hlsim.Quiesce = realQuiesce
+			settle(5 * time.Second)
+			if v.EOF() {
+				rt.Fatalf("a disconnect request (option %d) handled %s the protected user's connection entered the registry dropped it", option, when)
+			}
+			if r := v.Request(hlref.TranKeepAlive); !okReply(r) {
+				rt.Fatalf("the protected user is no longer served after a disconnect request (option %d) handled during its login", option)
+			}
+			if b, _ := w.Bans.IsBanned("10.6.9.2"); b {
+				rt.Fatalf("the protected user's address was banned by a disconnect request (option %d) handled during its login", option)
+			}
+			if fileHas(filepath.Join(w.Cfg, "Banlist.yaml"), "10.6.9.2") {
+				rt.Fatalf("the protected user's address is in the ban file")
+			}
+		})
+		ev.Case(evid.Hash("lw", option, when, flow), true, "login-window:"+when)
+	})
+}
